@@ -157,7 +157,9 @@ func (c *TextLayout) ToBytes(e *Event) []byte {
 	enc.AppendEncoderEnd()
 
 	buf.WriteByte('\n')
-	return buf.Bytes()
+	// The buffer goes back to the pool when this function returns,
+	// so the caller gets its own copy of the line.
+	return bytes.Clone(buf.Bytes())
 }
 
 // JSONLayout formats a log event as a structured JSON object.
@@ -188,5 +190,7 @@ func (c *JSONLayout) ToBytes(e *Event) []byte {
 	enc.AppendEncoderEnd()
 
 	buf.WriteByte('\n')
-	return buf.Bytes()
+	// The buffer goes back to the pool when this function returns,
+	// so the caller gets its own copy of the line.
+	return bytes.Clone(buf.Bytes())
 }
